@@ -32,7 +32,7 @@ func (Prop) Rule() string {
 		"G2: ScalarBaseMult(k) = ScalarMult(Gen2,k) = plain double-and-add over the bits of (k mod n) built from G2.Add only, same for a second base point, results on the twist (reference F_p^2); " +
 		"GT: GT.ScalarBaseMult(k) = GT.ScalarMult(e(P1,P2),k) = GT.ScalarMult(.., k mod n) = windowed ScalarMultGT = table-driven ScalarBaseMultGT, identity encoding (0,..,0,1) iff n | k. " +
 		"Pair laws on A x A (40x40 small, 24x24 structured incl. n-a, n, n+1, 2^256-1): [a]P+[b]P = [(a+b) mod n]P (also with aliased destinations and swapped operands), [b]([a]P) = [ab mod n]P, Double; " +
-		"identity / inverse / order-n cases; bilinearity e([a]P1,[b]P2) = e(P1,P2)^(ab mod n) on a 12x12 product (24x24 thorough) incl. a or b = 0 mod n, additivity in both arguments, " +
+		"identity / inverse / order-n cases; bilinearity e([a]P1,[b]P2) = e(P1,P2)^(ab mod n) on a 12x12 product (24x24 thorough) incl. a or b = 0 mod n, additivity in both arguments, independence of the route an argument was produced by (Neg, Add, Double, decoder output, scalar-mult result), " +
 		"Miller+Finalize = Pair, e(P1,P2) != 1 and e(P1,P2)^n = 1; GM/T 0044.5 annex values of e(P1,Ppub-s), e(RA,deB), e(Ppub-e,P2)^rB, Ppub-s, deB. " +
 		"E3 on the prefix decoders G1/G2/GT.Unmarshal and G1/G2.UnmarshalCompressed (fresh and used receiver): for each of 20 (GT: 10; thorough 60/20) valid elements, each coordinate in {p, p-1, p+1, 0, c+p if < 2^256, 2^256-1, c+1, c-1, p-c, c xor 2^255, c with each bit of its last byte flipped} " +
 		"(thorough: also all pairs of coordinates for the first six elements), infinity forms (all-zero accepted; zero vector with p / 2^256-1 / 1 in every subset of coordinates rejected), x = 0 compressed forms, " +
@@ -732,6 +732,47 @@ func runBilinear(c *engine.Ctx) {
 				l = vh.Pair(P, new(vh.G2).Add(A2, B2)).Marshal()
 				r = new(vh.GT).Add(vh.Pair(P, A2), vh.Pair(P, B2)).Marshal()
 				eq(t, "pairing/additivity-g2", l, r, "e(P,A+B) vs e(P,A)e(P,B), a=%x b=%x", a, b)
+			}
+			// arguments produced by every point-producing route of the API (Neg, Add, Double, decoder output, ScalarMult
+			// results): the pairing must not depend on the internal representation its argument arrived in.
+			if a.Sign() != 0 && modN(a).Sign() != 0 {
+				nm1 := new(big.Int).Sub(nOrd, one)
+				P := g1Base(chain("route-p"))
+				Qp := g2Base(a) // projective as produced by ScalarBaseMult
+				Qa := new(vh.G2)
+				if _, err := Qa.Unmarshal(Qp.Marshal()); err != nil {
+					t.Fail("g2/unmarshal/own-encoding-rejected", "Unmarshal(Marshal([%x]P2)): %v", a, err)
+				} else {
+					e := vh.Pair(P, Qa)
+					inv := new(vh.GT).ScalarMult(e, nm1).Marshal() // e^(n-1) = e^-1
+					routes := []struct {
+						name string
+						q    *vh.G2
+					}{
+						{"neg-of-decoded", new(vh.G2).Neg(Qa)},
+						{"neg-of-scalarmult-result", new(vh.G2).Neg(Qp)},
+						{"neg-of-neg-of-neg", new(vh.G2).Neg(new(vh.G2).Neg(new(vh.G2).Neg(Qa)))},
+					}
+					for _, r := range routes {
+						eq(t, "pairing/g2-argument-route/"+r.name, vh.Pair(P, r.q).Marshal(), inv, "e(P,-Q) vs e(P,Q)^(n-1) with -Q from %s, Q=[%x]P2", r.name, a)
+						t.Eval(1)
+					}
+					eq(t, "pairing/g2-argument-route/neg-neg", vh.Pair(P, new(vh.G2).Neg(new(vh.G2).Neg(Qa))).Marshal(), e.Marshal(), "e(P,--Q) vs e(P,Q), Q=[%x]P2", a)
+					eq(t, "pairing/g1-argument-route/neg", vh.Pair(new(vh.G1).Neg(P), Qa).Marshal(), inv, "e(-P,Q) vs e(P,Q)^(n-1), Q=[%x]P2", a)
+					// 2Q through Add(Q,Q) of decoded points, Q + (-Q) + Q
+					two := new(vh.GT).ScalarMult(e, big.NewInt(2)).Marshal()
+					eq(t, "pairing/g2-argument-route/add-decoded", vh.Pair(P, new(vh.G2).Add(Qa, Qa)).Marshal(), two, "e(P,Q+Q) vs e(P,Q)^2, Q=[%x]P2", a)
+					back := new(vh.G2).Add(new(vh.G2).Add(Qa, new(vh.G2).Neg(Qa)), Qa)
+					eq(t, "pairing/g2-argument-route/add-neg-add", vh.Pair(P, back).Marshal(), e.Marshal(), "e(P,(Q-Q)+Q) vs e(P,Q), Q=[%x]P2", a)
+					// G1 side: decoded, negated, doubled
+					Pa := new(vh.G1)
+					if _, err := Pa.Unmarshal(P.Marshal()); err == nil {
+						eq(t, "pairing/g1-argument-route/decoded", vh.Pair(Pa, Qa).Marshal(), e.Marshal(), "e(decode(P),Q) vs e(P,Q)")
+						eq(t, "pairing/g1-argument-route/double", vh.Pair(new(vh.G1).Double(Pa), Qa).Marshal(), two, "e(2P,Q) vs e(P,Q)^2")
+						eq(t, "pairing/g1-argument-route/neg-decoded", vh.Pair(new(vh.G1).Neg(Pa), Qa).Marshal(), inv, "e(-decode(P),Q) vs e(P,Q)^(n-1)")
+					}
+					t.Nontrivial(fmt.Sprintf("pair-routes/%x", a))
+				}
 			}
 			t.Outcome("bilinear/ok")
 			if ai == 7 {
